@@ -131,6 +131,7 @@ def astep_does_not_increase_badness(self, result, OLD):
     _, b0, e0 = _objective(self, a0, g0)
     c1, b1, e1 = _objective(self, np.asarray(result, dtype=np.float64), g0)
     MON.last_chi2, MON.last_err = c1, e1
+    e1 += R.hmf_solver_excess(self.invvar, g0, np.asarray(result, dtype=np.float64), 'a')
     inc = _increase('astep_badness_increase', b0, b1, e0 + e1)
     return inc <= 1.0 or MON.reject('chi2-monotone', 'astep raised the badness from %.17g to %.17g' % (b0, b1))
 
@@ -155,6 +156,7 @@ def gstep_does_not_increase_badness(self, result, OLD):
     _, b0, e0 = _objective(self, a0, g0)
     c1, b1, e1 = _objective(self, a0, np.asarray(result, dtype=np.float64))
     MON.last_chi2, MON.last_err = c1, e1
+    e1 += R.hmf_solver_excess(self.invvar, a0, np.asarray(result, dtype=np.float64), 'g', _eps_of(self))
     inc = _increase('gstep_badness_increase', b0, b1, e0 + e1)
     return inc <= 1.0 or MON.reject(
         'chi2-monotone', 'gstep (epsilon=%r) raised the badness from %.17g to %.17g' % (self.epsilon, b0, b1))
@@ -424,6 +426,9 @@ class C15(Check):
             'continuum+line bases, data in units 1e-6..1e6, incl. all-float32 input; reported chi2 compared with sum w (b - returned yfit)^2 '
             'within 30 x the residual-evaluation bound; HMF data with S/N up to 3e6 and units 1e-5..1e5, HMF.badness() compared with the '
             'chi-square of the returned factors; standing sub-classes: seed=0, epsilon=0.0, 2-variable pcomp; '
+            'shape boundaries: computechi2 N == M (non-symmetric square), M+1, M+2, (N,1), 1x1, zero weights leaving exactly M / M+1 used rows; '
+            'pcomp nobs == nvar, nvar +- 1; HMF with N == K, K+1, K == 1, M == K+1, K+2; pca_solve with nobj == nkeep, nkeep == 1, npix == nkeep+1, '
+            'npix == nobj, nobj+1; '
             'pca_solve on float32 rank-K+noise spectra with masked pixels and fully masked columns, nkeep 1-4, niter 1-8, '
             'maxiter 0-2.  Non-trivial: computechi2 with >= 2 columns and >= 1 zero weight; pcomp with >= 2 variables; '
             'HMF with masked pixels and K >= 2; pca_solve with masked pixels and nkeep >= 2; distinct by hash of the input.')
@@ -456,6 +461,12 @@ class C15(Check):
         'hmf_order:solve_twice', 'hmf_order:interleave_other_seed', 'hmf_order:reseed_between', 'hmf_order:random_program',
         'stale_chi2_rereads', 'stale_pcomp_rereads', 'stale_pca_recalls',
         'live_chi2_rereads', 'live_pcomp_rereads', 'live_pca_rereads', 'live_hmf_rereads', 'alias_pairs_checked', 'alias_write_probes',
+        'chi2_square_nonsymmetric_systems', 'chi2_shape:square', 'chi2_shape:n_eq_m_plus_1', 'chi2_shape:n_eq_m_plus_2',
+        'chi2_shape:single_template', 'chi2_shape:one_by_one', 'chi2_used_rows_eq_m', 'chi2_used_rows_eq_m_plus_1',
+        'hmf_shape:spectra_eq_K', 'hmf_shape:spectra_eq_K_plus_1', 'hmf_shape:K_eq_1', 'hmf_shape:pixels_eq_K_plus_1',
+        'hmf_shape:pixels_eq_K_plus_2', 'pca_shape:spectra_eq_nkeep', 'pca_shape:nkeep_eq_1', 'pca_shape:pixels_eq_nkeep_plus_1',
+        'pca_shape:pixels_eq_spectra', 'pca_shape:pixels_eq_spectra_plus_1',
+        'pcomp_nobs_eq_nvar', 'pcomp_nobs_plus_1_nvar', 'pcomp_nobs_minus_1_nvar',
         'pcomp_two_variable_cases', 'hmf_seed_zero_cases', 'chi2_cancellation_would_show', 'chi2_cancellation_would_show_float32', 'hmf_reported_badness_checked',
         'chi2_zero_weight_cases', 'chi2_discriminating', 'pcomp_wide_cases', 'pca_projections', 'pca_masked_columns',
     )
@@ -506,24 +517,33 @@ class C15(Check):
             'chi2_pixelpoly': 200 if q else 3000,
             'chi2_float32': 250 if q else 4000,
             'chi2_highsnr': 300 if q else 5000,
+            'chi2_shapes': 350 if q else 5600,
             'pcomp_tall': 700 if q else 10000,
             'pcomp_wide': 400 if q else 6000,
             'hmf_exact': 100 if q else 1600,
             'hmf_smooth': 100 if q else 1600,
             'hmf_nonneg': 80 if q else 1200,
             'hmf_order': 72 if q else 1200,
+            'hmf_boundary': 60 if q else 900,
+            'pca_boundary': 60 if q else 900,
             'pca_solve': 240 if q else 3200,
         }
 
     # ------------------------------------------------------------------------------------------ gen
     def gen(self, cls, rng, i):
         g = np_rng(rng)
+        if cls == 'chi2_shapes':
+            return self._gen_chi2_shapes(rng, g, i)
         if cls.startswith('chi2'):
             return self._gen_chi2(cls, rng, g)
         if cls.startswith('pcomp'):
             return self._gen_pcomp(cls, rng, g)
         if cls == 'hmf_order':
             return self._gen_hmf_order(rng, g, i)
+        if cls == 'hmf_boundary':
+            return self._gen_hmf_boundary(rng, g, i)
+        if cls == 'pca_boundary':
+            return self._gen_pca_boundary(rng, g, i)
         if cls.startswith('hmf'):
             return self._gen_hmf(cls, rng, g)
         return self._gen_pca(cls, rng, g)
@@ -586,6 +606,55 @@ class C15(Check):
         return {'kind': 'chi2', 'cls': 'chi2_highsnr', 'basis': basis, 'snr': snr, 'cond_max': cond_max * 10, 'A': _lists(A), 'b': _lists(b),
                 'sqivar': _lists(sq), 'dtypes': dts, 'order': order}
 
+    CHI2_SHAPES = ('square', 'square', 'n_eq_m_plus_1', 'n_eq_m_plus_2', 'single_template', 'one_by_one', 'used_rows_eq_m', 'used_rows_eq_m_plus_1')
+
+    def _gen_chi2_shapes(self, rng, g, i):
+        """Shape boundaries: exactly determined (N == M, non-symmetric A), one and two spare rows, a single template as an
+        (N, 1) matrix, the 1 x 1 system, and zero weights that leave exactly M or M + 1 used rows of a taller matrix."""
+        shape = self.CHI2_SHAPES[i % len(self.CHI2_SHAPES)]
+        for attempt in range(60):
+            m = int(g.integers(1, 9))
+            if shape == 'square':
+                m = int(g.integers(2, 9))
+                n = m
+            elif shape == 'n_eq_m_plus_1':
+                n = m + 1
+            elif shape == 'n_eq_m_plus_2':
+                n = m + 2
+            elif shape == 'single_template':
+                m = 1
+                n = int(g.integers(1, 60))
+            elif shape == 'one_by_one':
+                n = m = 1
+            else:
+                n = int(g.integers(m + 3, 60))
+            A = g.normal(size=(n, m)) * 10.0 ** g.uniform(-1, 1, size=(1, m))
+            if rng.random() < 0.3 and n > 1:
+                A = np.vander(np.linspace(-1, 1, n) + g.uniform(-0.2, 0.2), m, increasing=True)
+            sq = 10.0 ** g.uniform(-1, 1, n) if rng.random() < 0.5 else g.uniform(0.3, 3.0, n)
+            if shape.startswith('used_rows'):
+                used = m + (1 if shape.endswith('plus_1') else 0)
+                keep = g.choice(n, used, replace=False)
+                z = np.ones(n, bool)
+                z[keep] = False
+                sq = np.where(z, 0.0, sq)
+            x0 = g.normal(size=m) * 10.0 ** g.uniform(-1, 1, m)
+            clean = A @ x0
+            b = clean + 10.0 ** g.uniform(-3, 0) * np.sqrt(np.mean(clean ** 2) + 1e-300) * g.normal(size=n)
+            dts = rng.choice([['f8', 'f8', 'f8'], ['f8', 'f8', 'f8'], ['f8', 'f4', 'f4']])
+            A = A.astype(dts[0]).astype('f8')
+            b = b.astype(dts[1]).astype('f8')
+            sq = sq.astype(dts[2]).astype('f8')
+            sv = np.linalg.svd(A * sq[:, None], compute_uv=False)
+            if sv[-1] > 0 and (sv[0] / sv[-1]) ** 2 <= COND_MAX / 100:
+                break
+        else:
+            return None
+        order = ['acoeff', 'chi2', 'yfit', 'dof', 'covar', 'var']
+        rng.shuffle(order)
+        return {'kind': 'chi2', 'cls': 'chi2_shapes', 'shape': shape, 'A': _lists(A), 'b': _lists(b), 'sqivar': _lists(sq),
+                'dtypes': dts, 'order': order}
+
     def _gen_chi2(self, cls, rng, g):
         if cls == 'chi2_highsnr':
             return self._gen_chi2_highsnr(rng, g)
@@ -643,6 +712,8 @@ class C15(Check):
             n = int(g.integers(2, m + 1))
         else:
             n = int(g.integers(m + 1, 6 * m + 20))
+        if rng.random() < 0.2:                       # shape boundary: nobs == nvar, nvar - 1, nvar + 1
+            n = max(2, m + rng.choice([-1, 0, 1]))
         r = int(g.integers(1, m + 1))
         x = g.normal(size=(n, r)) @ g.normal(size=(r, m)) + 10.0 ** g.uniform(-3, 0) * g.normal(size=(n, m))
         x = x * 10.0 ** g.uniform(-2, 2, size=(1, m))
@@ -690,6 +761,49 @@ class C15(Check):
         return {'kind': 'hmf', 'spectra': _lists(s), 'invvar': _lists(w), 'K': K, 'n_iter': rng.randint(2, 8),
                 'seed': 0 if rng.random() < 0.12 else rng.randint(0, 2 ** 31 - 1), 'epsilon': eps, 'nonnegative': nonneg, 'masked_edges': edges,
                 'global_seeds': [rng.randint(0, 2 ** 31 - 1), rng.randint(0, 2 ** 31 - 1)]}
+
+    HMF_SHAPES = ('spectra_eq_K', 'spectra_eq_K_plus_1', 'K_eq_1', 'pixels_eq_K_plus_1', 'pixels_eq_K_plus_2')
+
+    def _gen_hmf_boundary(self, rng, g, i):
+        """Shape boundaries of the factorisation: as many spectra as components (every pixel sub-problem exactly determined,
+        chi-square ~ 0), one spectrum more, a single component, and K + 1 / K + 2 pixels.  No masked pixels where the
+        sub-problems would otherwise lose full rank."""
+        shape = self.HMF_SHAPES[i % len(self.HMF_SHAPES)]
+        K = 1 if shape == 'K_eq_1' else rng.randint(2, 4)
+        N, M, maskfrac = rng.randint(10, 25), rng.randint(40, 80), 0.0
+        if shape == 'spectra_eq_K':
+            N = K
+        elif shape == 'spectra_eq_K_plus_1':
+            N = K + 1
+        elif shape == 'K_eq_1':
+            maskfrac = rng.choice([0.0, 0.05, 0.1])
+        elif shape == 'pixels_eq_K_plus_1':
+            M = K + 1
+        else:
+            M = K + 2
+        nonneg = rng.random() < 0.35
+        s, w = _spectral_matrix(g, N, M, K, nonneg, maskfrac, 'keep')
+        return {'kind': 'hmf', 'shape': shape, 'spectra': _lists(s), 'invvar': _lists(w), 'K': K, 'n_iter': rng.randint(2, 5),
+                'seed': rng.randint(0, 2 ** 31 - 1), 'epsilon': rng.choice([None, None, 0.0, 0.1, 10.0]), 'nonnegative': nonneg,
+                'masked_edges': [0, 0], 'global_seeds': [rng.randint(0, 2 ** 31 - 1), rng.randint(0, 2 ** 31 - 1)]}
+
+    PCA_SHAPES = ('spectra_eq_nkeep', 'nkeep_eq_1', 'pixels_eq_nkeep_plus_1', 'pixels_eq_spectra', 'pixels_eq_spectra_plus_1')
+
+    def _gen_pca_boundary(self, rng, g, i):
+        shape = self.PCA_SHAPES[i % len(self.PCA_SHAPES)]
+        nkeep = 1 if shape == 'nkeep_eq_1' else rng.randint(2, 4)
+        nobj, npix, maskfrac = rng.randint(5, 12), rng.randint(40, 90), rng.choice([0.0, 0.05])
+        if shape == 'spectra_eq_nkeep':
+            nobj = nkeep
+        elif shape == 'pixels_eq_nkeep_plus_1':
+            npix, maskfrac = nkeep + 1, 0.0
+        elif shape == 'pixels_eq_spectra':
+            npix, maskfrac = nobj, 0.0
+        elif shape == 'pixels_eq_spectra_plus_1':
+            npix, maskfrac = nobj + 1, 0.0
+        s, w = _spectral_matrix(g, nobj, npix, nkeep, rng.random() < 0.5, maskfrac, 'keep')
+        return {'kind': 'pca', 'shape': shape, 'flux': _lists(s.astype('f4')), 'ivar': _lists(w.astype('f4')), 'nkeep': nkeep,
+                'nreturn': None, 'niter': rng.randint(1, 6), 'maxiter': rng.choice([0, 0, 1])}
 
     ORDER_PATTERNS = ('build2_solve2', 'draw_between', 'solve_twice', 'interleave_other_seed', 'reseed_between', 'random_program')
 
@@ -894,6 +1008,19 @@ class C15(Check):
             ('B(same shape, other system)', chi2_factory((np.roll(b, 1) * 1.5 + 1).astype(b.dtype), sq[::-1], A[::-1])),
             ('C(two more rows)', chi2_factory(np.append(b, b[:2] + 1).astype(b.dtype), np.append(sq, sq[:2]), np.vstack([A, A[:2]]))),
         ], orders, exempt=(frozenset(('covar', 'var')),))
+        used = int((sq != 0).sum())
+        if n == m and used == n and n >= 2 and not np.array_equal(A, A.T):
+            out.count('chi2_square_nonsymmetric_systems')
+            # exactly determined: the fit reproduces the data
+            out.expect(bool(np.all(np.abs(yf - b.astype('f8')) <= ytol + 1e3 * max(eps_b, EPS) * np.abs(b.astype('f8')))), 'chi2-yfit',
+                       'exactly determined system (N == M == %d): yfit does not reproduce b (max deviation %.3g)' % (
+                           n, float(np.max(np.abs(yf - b.astype('f8'))))))
+        if 'shape' in case:
+            out.count('chi2_shape:' + case['shape'])
+        if used == m:
+            out.count('chi2_used_rows_eq_m')
+        elif used == m + 1:
+            out.count('chi2_used_rows_eq_m_plus_1')
         nz = int((sq == 0).sum())
         if nz:
             out.count('chi2_zero_weight_cases')
@@ -984,6 +1111,8 @@ class C15(Check):
             out.count('pcomp_wide_cases')
         if m == 2:
             out.count('pcomp_two_variable_cases')
+        if abs(n - m) <= 1:
+            out.count('pcomp_nobs_%s_nvar' % ('eq' if n == m else 'plus_1' if n > m else 'minus_1'))
         out.nontrivial = m >= 2
         out.info.update(n=n, m=m, covariance=cov, standardize=std, smallest_eigenvalue=float(ev.min()) if ok else None)
 
@@ -1088,7 +1217,8 @@ class C15(Check):
             live_objects(out, 'hmf', [
                 ('A', hmf_factory(s0, w0, case['seed'])),
                 ('B(same shape, other spectra, other seed)', hmf_factory(s0[::-1] * 1.3, w0[::-1] / 1.69, case['seed'] + 1)),
-                ('C(one pixel less)', hmf_factory(s0[:, 1:], w0[:, 1:], case['seed'])),
+                (('C(one pixel less)', hmf_factory(s0[:, 1:], w0[:, 1:], case['seed'])) if M >= K + 8 else
+                 ('C(one pixel more)', hmf_factory(np.hstack([s0, s0[:, :1] * 1.25]), np.hstack([w0, w0[:, :1]]), case['seed']))),
             ], [None], exempt=(frozenset(('acoeff', 'a')), frozenset(('flux', 'g'))), volatile=('model',))
         except MonitorViolation as e:
             clause, msg, detail = MON.failure or ('contract', str(e), {})
@@ -1096,6 +1226,8 @@ class C15(Check):
         finally:
             np.random.set_state(state)
             self._flush_contract_counters(out, before)
+        if 'shape' in case:
+            out.count('hmf_shape:' + case['shape'])
         out.count('hmf_same_seed_pairs')
         if case['seed'] == 0 and K >= 2:
             out.count('hmf_seed_zero_cases')
@@ -1229,6 +1361,8 @@ class C15(Check):
             out.expect(k in r2 and _same_bits(r[k], r2[k]), 'pca-stale-state',
                        'pca_solve called twice on the same input (another call in between) returned a different %r' % k)
         out.count('stale_pca_recalls')
+        if 'shape' in case:
+            out.count('pca_shape:' + case['shape'])
 
         def pca_factory(ff, vv):
             def make():
